@@ -167,7 +167,7 @@ theorem localRound_safe {enc : Encoder} (henc : EncLen enc) {env : Env} (hb : en
 /-- emptying the local queue of a good state -/
 theorem good_clearLocal {st : St} (h : Good true st) : Good true { st with localTasks := some [] } ∧
     Ext st { st with localTasks := some [] } :=
-  ⟨⟨h.inv, h.sm, h.gt, fun l e t m => (by cases e; simp at m), h.gtab, h.ltab,
+  ⟨⟨h.inv, h.gt, fun l e t m => (by cases e; simp at m), h.gtab, h.ltab,
     fun _ => ⟨(h.inFile rfl).1, rfl⟩, fun e => by cases e⟩, Ext.refl _⟩
 
 theorem localLoop_safe {enc : Encoder} (henc : EncLen enc) {env : Env} (hb : env.paths.isEmpty = false) :
@@ -217,7 +217,7 @@ theorem globalRound_safe {enc : Encoder} (henc : EncLen enc) {env : Env} (hb : e
 
 theorem good_clearGlobal {st : St} (h : Good false st) : Good false { st with globalTasks := [] } ∧
     Ext st { st with globalTasks := [] } :=
-  ⟨⟨h.inv, h.sm, fun t m => (by simp at m), h.lt, h.gtab, h.ltab, fun e => (by cases e),
+  ⟨⟨h.inv, fun t m => (by simp at m), h.lt, h.gtab, h.ltab, fun e => (by cases e),
     fun _ => ⟨(h.top rfl).1, (h.top rfl).2.1, fun t m => by simp at m⟩⟩, fun _ x => x, fun t m => by simp at m⟩
 
 theorem globalLoop_safe {enc : Encoder} (henc : EncLen enc) {env : Env} (hb : env.paths.isEmpty = true) :
@@ -321,7 +321,7 @@ theorem assembleFile_safe {enc : Encoder} (henc : EncLen enc) (fs : Bytes → Op
       rw [he]
       simp only
       have g2 : Good true { st with locals := some [], globals := c, localTasks := some [], globalTasks := t } :=
-        ⟨h.inv, h.sm, fun t' m => h.lt t ht t' m, fun l e t' m => (by cases e; simp at m), h.ltab c hc,
+        ⟨h.inv, fun t' m => h.lt t ht t' m, fun l e t' m => (by cases e; simp at m), h.ltab c hc,
           fun l e => (by cases e; exact tableOk_nil), fun _ => ⟨rfl, rfl⟩, fun e => by cases e⟩
       have fb := fileBody_safe henc hinc (env := { paths := path :: env.paths, curName := path }) rfl fs data g2
       split
@@ -330,7 +330,7 @@ theorem assembleFile_safe {enc : Encoder} (henc : EncLen enc) (fs : Bytes → Op
         refine ⟨by simp, fun st' x eq => ?_⟩
         cases eq
         simp only [leaveFile]
-        refine ⟨⟨g4.inv, g4.sm, fun t' m => (h.gt t' m).mono e4.1, fun l e t' m => (by cases e; exact g4.gt t' m),
+        refine ⟨⟨g4.inv, fun t' m => (h.gt t' m).mono e4.1, fun l e t' m => (by cases e; exact g4.gt t' m),
           h.gtab, fun l e => (by cases e; exact g4.gtab), fun _ => ⟨rfl, rfl⟩, fun e => by cases e⟩, e4.1, fun t' m => .inl m⟩
       · rename_i r hf
         exact ⟨fun e => by cases e; exact fb.1 hf, fun st' x eq => by cases eq⟩
@@ -338,7 +338,7 @@ theorem assembleFile_safe {enc : Encoder} (henc : EncLen enc) (fs : Bytes → Op
       rw [enterFile_false h]
       simp only
       have g2 : Good true { st with locals := some [], localTasks := some [] } :=
-        ⟨h.inv, h.sm, h.gt, fun l e t' m => (by cases e; simp at m), h.gtab,
+        ⟨h.inv, h.gt, fun l e t' m => (by cases e; simp at m), h.gtab,
           fun l e => (by cases e; exact tableOk_nil), fun _ => ⟨rfl, rfl⟩, fun e => by cases e⟩
       have fb := fileBody_safe henc hinc (env := { paths := path :: env.paths, curName := path }) rfl fs data g2
       split
@@ -347,7 +347,7 @@ theorem assembleFile_safe {enc : Encoder} (henc : EncLen enc) (fs : Bytes → Op
         refine ⟨by simp, fun st' x eq => ?_⟩
         cases eq
         simp only [leaveFile]
-        refine ⟨⟨g4.inv, g4.sm, g4.gt, fun l e => (by cases e), g4.gtab, fun l e => (by cases e), fun e => (by cases e),
+        refine ⟨⟨g4.inv, g4.gt, fun l e => (by cases e), g4.gtab, fun l e => (by cases e), fun e => (by cases e),
           fun _ => ⟨rfl, rfl, fun t' m => ?_⟩⟩, e4.1, e4.2⟩
         rcases e4.2 t' m with m' | m'
         · exact (h.top rfl).2.2 t' m'
